@@ -288,10 +288,18 @@ class SimTransport(transports._FlowControlMixin, transports.Transport):
         self._closing = True
         self._link.client_closed = True
         self._net.trace.add("conn.close", link=self._link.id)
+        hook = self._net.at_client_close.pop(0) if self._net.at_client_close else None
+        if hook is not None and hook[0] == "before":
+            # something else in the process becomes runnable in this very pass, ahead of the transport's connection_lost
+            self._net.fired("sched.call_as_client_closes")
+            hook[1]()
         if not self._buffer:
             self._conn_lost += 1
             self._loop.call_soon(self._call_connection_lost, None)
             self._link._client_gone()
+        if hook is not None and hook[0] != "before":
+            self._net.fired("sched.call_as_client_closes")
+            hook[1]()
 
     def abort(self) -> None:
         self._force_close(None)
@@ -418,6 +426,8 @@ class SimNet:
         self.write_faults: list[list] = []  # [[countdown, err], ...]
         self.stall_new_links: list[float] = []  # durations: the next accepted links start stalled
         self.fin_new_links: list[float] = []  # delays: the next accepted links are closed by the peer right away
+        self.at_client_close: list = []  # (order, callback): run callback when the client next closes a transport, queued before / after its connection_lost
+        self.before_accept: list = []  # (passes, callback): run callback when the next accepted attempt is about to complete, complete `passes` loop passes later
         self.faults_fired: dict[str, int] = {}
         self.violations: list[dict] = []
         self.udp: list = []
@@ -475,6 +485,17 @@ class SimNet:
             cls, no, msg = _ERRNO[kind]
             self.trace.add("net.connect_result", n=attempt, ok=False, k=kind)
             raise cls(no, f"{msg} ('{host}', {port})")
+        if self.before_accept:
+            # something else happens in the process a few loop passes before this attempt completes (when an attempt completes
+            # is the network's choice, so "k passes after the user's call" is as legal an instant as any other)
+            passes, cb = self.before_accept.pop(0)
+            self.trace.add("net.before_accept", n=attempt, passes=passes)
+            self.fired("sched.call_just_before_connect_completes")
+            cb()
+            for _ in range(passes):
+                w = loop.create_future()
+                loop.call_soon(_set_result, w)
+                await w
         link = Link(self, len(self.links), host, port, listener)
         self.links.append(link)
         protocol = protocol_factory()
